@@ -6,6 +6,8 @@ import (
 	"iter"
 	"sync"
 	"sync/atomic"
+
+	"github.com/openfga/openfga/internal/verifhook"
 )
 
 // ErrInvalidCapacity indicates that a capacity value is invalid.
@@ -201,6 +203,7 @@ func (p *Queue[T]) Seq(ctx context.Context) iter.Seq[T] {
 // doubles the buffer (if extensions remain) or parks on the full channel
 // until a Recv frees a slot.
 func (p *Queue[T]) Send(ctx context.Context, item T) bool {
+	verifhook.Point("mpmc.send.enter")
 	p.mu.RLock()
 	defer p.mu.RUnlock()
 
@@ -217,11 +220,14 @@ func (p *Queue[T]) Send(ctx context.Context, item T) bool {
 
 		if diff == 0 {
 			// Slot is writable. Try to claim it.
+			verifhook.Point("mpmc.send.cas")
 			if p.head.CompareAndSwap(pos, pos+1) {
+				verifhook.Point("mpmc.send.publish")
 				cell.Data = item
 				// Publish: storing seq = pos+1 makes the slot readable.
 				cell.Sequence.Store(pos + 1)
 				// Wake one parked receiver, if any.
+				verifhook.Point("mpmc.send.signal")
 				select {
 				case p.empty <- struct{}{}:
 				default:
@@ -249,11 +255,13 @@ func (p *Queue[T]) Send(ctx context.Context, item T) bool {
 				p.mu.Unlock()
 			} else {
 				// Extensions exhausted: park until a receiver frees a slot.
+				verifhook.Point("mpmc.send.park")
 				select {
 				case <-p.full:
 				case <-ctx.Done():
 				}
 			}
+			verifhook.Point("mpmc.send.wake")
 			p.mu.RLock()
 			pos = p.head.Load()
 		} else {
@@ -269,6 +277,7 @@ func (p *Queue[T]) Send(ctx context.Context, item T) bool {
 // empty. It returns false if the queue has been closed and fully
 // drained, or if ctx is cancelled.
 func (p *Queue[T]) Recv(ctx context.Context) (T, bool) {
+	verifhook.Point("mpmc.recv.enter")
 	p.mu.RLock()
 	defer p.mu.RUnlock()
 
@@ -281,7 +290,9 @@ func (p *Queue[T]) Recv(ctx context.Context) (T, bool) {
 
 		if diff == 0 {
 			// Slot is readable. Try to claim it.
+			verifhook.Point("mpmc.recv.cas")
 			if p.tail.CompareAndSwap(pos, pos+1) {
+				verifhook.Point("mpmc.recv.consume")
 				value := cell.Data
 				var zero T
 				cell.Data = zero
@@ -293,6 +304,7 @@ func (p *Queue[T]) Recv(ctx context.Context) (T, bool) {
 				// is required because Recv may drain items after
 				// Close, at which point the full channel is closed
 				// and a send would panic.
+				verifhook.Point("mpmc.recv.signal")
 				if !p.done.Load() {
 					select {
 					case p.full <- struct{}{}:
@@ -309,10 +321,12 @@ func (p *Queue[T]) Recv(ctx context.Context) (T, bool) {
 			}
 			// Park until a sender publishes a value.
 			p.mu.RUnlock()
+			verifhook.Point("mpmc.recv.park")
 			select {
 			case <-p.empty:
 			case <-ctx.Done():
 			}
+			verifhook.Point("mpmc.recv.wake")
 			p.mu.RLock()
 			pos = p.tail.Load()
 		} else {
@@ -326,6 +340,7 @@ func (p *Queue[T]) Recv(ctx context.Context) (T, bool) {
 // Close shuts down the queue. Blocked Send and Recv calls are woken and
 // return false. It is safe to call Close multiple times.
 func (p *Queue[T]) Close() {
+	verifhook.Point("mpmc.close.enter")
 	p.mu.Lock()
 	defer p.mu.Unlock()
 
